@@ -128,14 +128,16 @@ theorem settled_at_quiescence (cfg : Cfg) (ops : List Op)
 def srv : Cfg := { side := .server, pingOn := false, timeoutPos := false, gap := false }
 def cliPing : Cfg := { side := .client, pingOn := true, timeoutPos := true, gap := true }
 
-/-! ### clauses about the peer's close frame (second, step-boundary invariant `Inv2`, files Inv2*.lean)
+/-! ### clauses about the peer's close frame (second invariant `Inv2`, files Inv2*.lean)
 
-`peerOf h` = what the history says about the peer's close: its close frame arrived while the transport was up
-(`got code reason wellFormed`), the transport went down first, or nothing yet.  The clauses are conditional on
-"no asynchronous on_message was ever started" (`neverBlocked`), as in Spec.lean. -/
+`peerOf h` = what the history says about the peer's close: its close frame was *received* while the transport was up
+(`got code reason wellFormed`), the transport went down first, or nothing yet.  A close frame that has arrived is
+received once every message that arrived before it has been handed to on_message and no on_message is in flight
+(`Spec.obs`): while an asynchronous on_message is running the endpoint does not read further frames.  The theorems
+hold for EVERY run — any number of asynchronous on_message calls, released or not, frames queued behind them. -/
 
-/-- the second invariant holds after every run: the four clauses below, and at the step boundary the protocol's
-`close_code/close_reason` are exactly what the peer's close frame carried once the receive loop has finished -/
+/-- the second invariant holds after every run: the link between the state and the observer's reading of the
+history (`Link`: in-flight flag, unread messages / close frame, `close_code/close_reason`) and the five clauses -/
 theorem inv2_run (cfg : Cfg) (ops : List Op) : Inv2 (run cfg ops) := inv2_run_aux cfg ops
 
 /-- a close frame written after the peer's close frame was received echoes the peer's code (with
@@ -157,16 +159,82 @@ theorem on_close_carries_peer_close (cfg : Cfg) (ops : List Op) :
     forallH notifyCarriesPeerClose (run cfg ops).log = true :=
   (inv2_run cfg ops).g4
 
-/-- state form: at the end of any run in which no asynchronous on_message was started and the receive loop has
-finished, `close_code/close_reason` are what the history says the peer sent -/
-theorem close_code_is_peers (cfg : Cfg) (ops : List Op) (hn : neverBlocked (run cfg ops).log = true)
-    (hd : (run cfg ops).loopDone = true) : PeerOK (run cfg ops) :=
-  ((inv2_run cfg ops).bnd hn).finished hd
+/-- at every step boundary: transport down and no on_message in flight ⇒ the notification has fired (no probe needed) -/
+theorem on_close_when_down_boundary (cfg : Cfg) (ops : List Op) :
+    forallH notifyWhenDownB (run cfg ops).log = true :=
+  (inv2_run cfg ops).g5
+
+/-- the observer's in-flight flag is the state's: an on_message is in flight exactly when the history says so -/
+theorem in_flight_iff_blocked (cfg : Cfg) (ops : List Op) : inFlight (run cfg ops).log = (run cfg ops).blocked :=
+  (inv2_run cfg ops).link.blk
+
+/-- state form: once the receive loop has finished, `close_code/close_reason` are what the history says the peer
+sent (in every run; the former hypothesis "no asynchronous on_message was ever started" is gone) -/
+theorem close_code_is_peers (cfg : Cfg) (ops : List Op) (hd : (run cfg ops).loopDone = true) : PeerOK (run cfg ops) :=
+  (inv2_run cfg ops).link.dead ((inv_run cfg ops).1.ctClosed ((inv_run cfg ops).1.doneCt hd))
+
+/-- the end of a run is a step boundary and is judged like one: NO clause of the oracle is violated by the history of
+any run, its last step included (`Spec.violated` puts a virtual step marker on top) -/
+theorem run_not_violated (cfg : Cfg) (ops : List Op) : violated (run cfg ops).log = [] := by
+  have hI := (inv_run cfg ops).1
+  obtain ⟨m1, m2, m3, m4, m5⟩ := marker_clauses (atB_run cfg ops) .probe
+  have t4 : teardownTimeout (.op .probe) (run cfg ops).log = true := by
+    simp only [teardownTimeout, isOp, if_true]
+    cases hx : (run cfg ops).log.any isCloseDue with
+    | false => rfl
+    | true => simp [hI.closedDown (hI.dueClosed hx)]
+  have k1 : forallH oneCloseFrame (.op .probe :: (run cfg ops).log) = true := by
+    simp [forallH, oneCloseFrame, isClose, hI.c1]
+  have k2 : forallH noDataAfterClose (.op .probe :: (run cfg ops).log) = true := by
+    simp [forallH, noDataAfterClose, isData, hI.c2]
+  have k4 : forallH teardownTimeout (.op .probe :: (run cfg ops).log) = true := by
+    rw [forallH, t4, hI.c4]; rfl
+  have k5 : forallH notifyOnce (.op .probe :: (run cfg ops).log) = true := by
+    simp [forallH, notifyOnce, isNotify, hI.c5]
+  have k6 : forallH writeAfterCloseFails (.op .probe :: (run cfg ops).log) = true := by
+    simp [forallH, writeAfterCloseFails, hI.c6]
+  have k7 : forallH notifyWhenDown (.op .probe :: (run cfg ops).log) = true := by
+    simp [forallH, notifyWhenDown, hI.c7]
+  simp [violated, clauses, atEnd, k1, k2, k4, k5, k6, k7, m1, m2, m3, m4, m5]
+
+/-- … and at quiescence neither is the quiescence clause -/
+theorem run_not_violatedQ (cfg : Cfg) (ops : List Op)
+    (hw : (run cfg ops).waiting = false) (hb : (run cfg ops).blocked = false) :
+    violatedQ (run cfg ops).log true = [] := by
+  simp [violatedQ, run_not_violated, settled_at_quiescence cfg ops hw hb]
 
 /-- non-vacuity of `close_code_is_peers`: the peer closes first with code 3000 and reason "o" -/
-example : neverBlocked (run srv [.recvClose [11, 184, 111] true]).log = true ∧
-    (run srv [.recvClose [11, 184, 111] true]).loopDone = true ∧
+example : (run srv [.recvClose [11, 184, 111] true]).loopDone = true ∧
     peerOf (run srv [.recvClose [11, 184, 111] true]).log = .got (some 3000) (some [111]) true := by decide
+
+/-- … and with an asynchronous on_message: the close frame (3000) arrives while it is in flight, our own close (1001)
+goes out first, the handler is released: the frame is received then, nothing is echoed (ours was sent), the transport
+goes down and the notification carries 3000 -/
+example : trace srv [.recvData true, .recvClose [11, 184] true, .localClose (some 1001) none, .release] =
+    [.op (.recvData true), .onMessage, .op (.recvClose [11, 184] true), .op (.localClose (some 1001) none),
+     .closeFrame [3, 233], .op .release, .streamClosed, .notify (some 3000) none] := by decide
+example : peerOf (run srv [.recvData true, .recvClose [11, 184] true, .localClose (some 1001) none]).log = .undecided ∧
+    peerOf (run srv [.recvData true, .recvClose [11, 184] true, .localClose (some 1001) none, .release]).log =
+      .got (some 3000) none true := by decide
+
+/-- a second asynchronous message queued in front of the close frame: releasing the first one starts the second, the
+close frame is still unread; the closing timeout then aborts, and the notification carries nothing -/
+example : trace srv [.recvData true, .recvData true, .recvClose [11, 184] true, .localClose none none, .release,
+      .closeTimer, .release] =
+    [.op (.recvData true), .onMessage, .op (.recvData true), .op (.recvClose [11, 184] true),
+     .op (.localClose none none), .closeFrame [], .op .release, .onMessage, .op .closeTimer, .closeDue, .streamClosed,
+     .op .release, .notify none none] := by decide
+example : peerOf (run srv [.recvData true, .recvData true, .recvClose [11, 184] true, .localClose none none, .release,
+      .closeTimer, .release]).log = .downFirst := by decide
+
+/-- the reviewer's witness: an asynchronous on_message long since released no longer switches the clauses off — a
+history that "echoes" 1000 for a peer close 3000, never tears down and notifies 1000 is rejected … -/
+example : violated [.op .probe, .notify (some 1000) none, .closeFrame [3, 232], .op (.recvClose [11, 184] true),
+      .op .release, .onMessage, .op (.recvData true)] =
+    ["echoesPeerCode", "teardownBothClosed", "notifyCarriesPeerClose"] := by decide
+
+/-- … and the last step of a history is judged without a trailing step -/
+example : violated [.op (.recvClose [3, 232] true)] = ["teardownBothClosed", "bothClosedSendsClose"] := by decide
 
 /-! ### non-vacuity: concrete runs that exercise the clauses -/
 
